@@ -1031,8 +1031,10 @@ void f_switch () {
           l = current_prog->program + offset;
           COPY_INT (&d, end_tab - 4);
           /* d is minimum value - see if in range or not */
-          if (s >= d && l + (s = (s - d) * sizeof (short)) < (end_tab - 4))
+          /* s - d is computed without signed overflow; compare entry counts, not addresses */
+          if (s >= d && ((uint64_t) s - (uint64_t) (int64_t) d) < (uint64_t) ((end_tab - 4 - l) / sizeof (short)))
             {
+              s = (intptr_t) (((uint64_t) s - (uint64_t) (int64_t) d) * sizeof (short));
               COPY_SHORT (&offset, &l[s]);
               if (offset)
                 {
